@@ -12,6 +12,7 @@ import MiniMoka.Lemmas.UnsyncOps
 
 namespace MiniMoka
 namespace Sync
+namespace Nodes
 
 /-! ### node lists -/
 
@@ -674,16 +675,15 @@ theorem handleAdmit_safe {p : Params} {s : SState} (h : Safe s) (key : Nat) (has
   have hc2 : s2.cec = s.cec + 1 := by rw [← hs2]; split <;> rfl
   have hn2 : s2.nextId = s.nextId := by rw [← hs2]; split <;> rfl
   have hf2 : s2.fault = s.fault := by rw [← hs2]; split <;> rfl
-  -- access-order node
-  generalize hnode : ({ id := s2.nextId, key := key, hash := hash, info := ve.info } : AoNode) = node
-  have hnid : node.id = s.nextId := by rw [← hnode]; exact hn2
-  have hninfo : node.info = ve.info := by rw [← hnode]
-  generalize hs4 : withInfo { s2 with prob := s2.prob ++ [node], nextId := s2.nextId + 1 } ve.info
+  -- access-order node (the node literal is left to unification: ghost fields may be added)
+  generalize hs4 : withInfo { s2 with prob := s2.prob ++ [_], nextId := s2.nextId + 1 } ve.info
     (fun i => { i with ao := some s2.nextId }) = s4
   have hg4 : ∀ j, getInfo s4 j =
       if ve.info = j then { getInfo s2 ve.info with ao := some s2.nextId } else getInfo s2 j := by
     intro j; rw [← hs4, getInfo_withInfo]; rfl
-  have hp4 : s4.prob = s.prob ++ [node] := by rw [← hs4]; simp only [withInfo]; rw [hp2]
+  obtain ⟨node, hnid, hninfo, hp4⟩ : ∃ node : AoNode, node.id = s.nextId ∧ node.info = ve.info ∧
+      s4.prob = s.prob ++ [node] := by
+    rw [← hs4]; exact ⟨_, hn2, rfl, by simp only [withInfo]; rw [hp2]⟩
   have hw4 : s4.wo = s.wo := by rw [← hs4]; exact hw2
   have hc4 : s4.cec = s.cec + 1 := by rw [← hs4]; exact hc2
   have hn4 : s4.nextId = s.nextId + 1 := by rw [← hs4]; simp only [withInfo]; rw [hn2]
@@ -697,8 +697,7 @@ theorem handleAdmit_safe {p : Params} {s : SState} (h : Safe s) (key : Nat) (has
     rw [hg4, if_pos rfl]; simp only; rw [hI2.2]; exact h.notAdm_wo hna
   -- write-order node
   generalize hs5 : (if p.ttl.isSome = true then
-      withInfo { s4 with wo := s4.wo ++ [{ id := s4.nextId, key := key, info := ve.info }],
-                         nextId := s4.nextId + 1 } ve.info
+      withInfo { s4 with wo := s4.wo ++ [_], nextId := s4.nextId + 1 } ve.info
         (fun i => { i with wo := some s4.nextId })
     else s4) = s5
   have hO5 : ∀ j, j ≠ ve.info → getInfo s5 j = getInfo s j := by
@@ -718,10 +717,12 @@ theorem handleAdmit_safe {p : Params} {s : SState} (h : Safe s) (key : Nat) (has
       (∃ wn : WoNode, wn.id = s.nextId + 1 ∧ wn.info = ve.info ∧ s5.wo = s.wo ++ [wn] ∧
         (getInfo s5 ve.info).wo = some (s.nextId + 1) ∧ s5.nextId = s.nextId + 2) := by
     rw [← hs5]; split
-    · refine Or.inr ⟨{ id := s4.nextId, key := key, info := ve.info }, hn4, rfl, ?_, ?_, ?_⟩
-      · simp only [withInfo]; rw [hw4]
-      · rw [getInfo_withInfo, if_pos rfl]; simp only; rw [hn4]
-      · simp only [withInfo]; rw [hn4]
+    · refine Or.inr ⟨?wn, ?h1, ?h2, ?h3, ?h4, ?h5⟩
+      case h3 => simp only [withInfo]; rw [hw4]
+      case h1 => exact hn4
+      case h2 => rfl
+      case h4 => rw [getInfo_withInfo, if_pos rfl]; simp only; rw [hn4]
+      case h5 => simp only [withInfo]; rw [hn4]
     · exact Or.inl ⟨hw4, hW4, hn4⟩
   -- admitted
   generalize hs6 : withInfo s5 ve.info (fun i => { i with admitted := true }) = s6
@@ -1848,5 +1849,38 @@ theorem finalState_core {P : Sketch → Prop} (L : SketchLaws P) {p : Params} (h
     · rw [step_faulty (by rw [hf]; rfl)]
       exact ih _ hc (Or.inr hf)
 
+/-! ### corollaries in the vocabulary of the model -/
+
+/-- An info that points at an access-order node points at a live one: `findAo` succeeds,
+so `move_to_back_ao` / `unlink_ao` do not dereference a freed node. -/
+theorem NodesCore.aoFind {s : SState} (h : NodesCore s) {i id : Nat}
+    (hx : (getInfo s i).ao = some id) : ∃ n, findAo s.prob id = some n ∧ n.info = i := by
+  obtain ⟨n, hn, e1, e2⟩ := h.aoNode i id hx
+  exact ⟨n, by rw [← e1]; exact findAo_of_mem h.probIds hn, e2⟩
+
+theorem NodesCore.woFind {s : SState} (h : NodesCore s) {i id : Nat}
+    (hx : (getInfo s i).wo = some id) : ∃ n, findWo s.wo id = some n ∧ n.info = i := by
+  obtain ⟨n, hn, e1, e2⟩ := h.woNode i id hx
+  exact ⟨n, by rw [← e1]; exact findWo_of_mem h.woIds hn, e2⟩
+
+theorem unlinkAo_nofault {s : SState} (h : Safe s) (i : Nat) : (unlinkAo s i).fault = none := by
+  cases hx : (getInfo s i).ao with
+  | none => simp only [unlinkAo, hx]; exact h.nofault
+  | some id =>
+    obtain ⟨n, hf, _⟩ := h.toNodesCore.aoFind hx
+    rw [unlinkAo_eq hx hf]; exact h.nofault
+
+theorem unlinkWo_nofault {s : SState} (h : Safe s) (i : Nat) : (unlinkWo s i).fault = none := by
+  cases hx : (getInfo s i).wo with
+  | none => rw [unlinkWo_none hx]; exact h.nofault
+  | some id =>
+    obtain ⟨n, hf, _⟩ := h.toNodesCore.woFind hx
+    rw [unlinkWo_eq hx hf]; exact h.nofault
+
+theorem refreshInfo_inv {P : Sketch → Prop} {p : Params} {s : SState} (h : TopInv P s)
+    (i ts w : Nat) : TopInv P (refreshInfo p s i ts w) :=
+  h.withInfo _ _ rfl rfl rfl
+
+end Nodes
 end Sync
 end MiniMoka
